@@ -20,6 +20,25 @@ STUB = ["identity hash of IR objects (PRNG chosen: memo dictionaries and referen
         "GC schedule"]
 
 
+def _containers(o):
+    """(attribute, value) for the list/dict/set valued attributes of an IR object (its own storage)."""
+    seen = set()
+    for cls in type(o).__mro__:
+        for slot in getattr(cls, "__slots__", ()):
+            if slot in seen:
+                continue
+            seen.add(slot)
+            try:
+                v = getattr(o, slot)
+            except AttributeError:
+                continue
+            if type(v) in (list, dict, set):
+                yield slot, v
+    for slot, v in getattr(o, "__dict__", {}).items():
+        if slot not in seen and type(v) in (list, dict, set):
+            yield slot, v
+
+
 def sc(x):
     """The scalar/array attribute as stored (the getter hides it while the bundle holds several items)."""
     return bool(getattr(x, "_is_scalar", x.is_scalar))
@@ -323,6 +342,17 @@ class C07(Prop):
         before_ids = set(id(o) for o in pre["snap"].objs)
         if own & before_ids:
             raise Violation("C07.%s.shared_object" % kind, disc, "the copy contains an object of the original")
+        # no two objects of the copy keep their members in one and the same container, and none keeps them in a
+        # container of an object that existed before (a copy that looks right until one of the two is edited)
+        holders = {}
+        for o in list(pre["snap"].objs) + [x for x in owned_walk(c)] + [
+                op for x in owned_walk(c) if kind_of(x) == "instance" for op in x.pins.values()]:
+            for slot, v in _containers(o):
+                first = holders.setdefault(id(v), (o, slot))
+                if first[0] is not o and (id(o) in own or id(first[0]) in own):
+                    raise Violation("C07.%s.container_shared" % kind, "%s.%s" % (kind_of(o), slot),
+                                    "%s of %s and %s of %s are one %s object" % (
+                                        first[1], w.name_of(first[0]), slot, w.name_of(o), type(v).__name__))
         getattr(self, "post_" + kind)(w, src, c, own, pre, disc)
         if len(own) > 1:
             w.count("probe.clone_with_substructure")
